@@ -213,7 +213,7 @@ static void check_c04(const Spec& sp, int L, Violations& V, Stats& st, bool verb
 }
 
 // ------------------------------------------------------------------------------------------ C16
-struct Tok { std::string text; bytes enc; bool codesep; };
+struct Tok { std::string text; bytes enc; bool codesep; bool extra = false; };
 static std::vector<Tok> exec_tokens(bool thorough) {
     std::vector<Tok> t;
     auto op = [&](const char* name, uint8_t c) { t.push_back({name, bytes{c}, c == 0xab}); };
@@ -228,6 +228,8 @@ static std::vector<Tok> exec_tokens(bool thorough) {
     for (const char* h : {"0100", "ff7f", "ffffff7f", "0080", "aabbcc"}) { bytes d = ref::unhex(h); t.push_back({h, ref::push_raw(d), false}); }
     // without the OP_ prefix
     t.push_back({"DUP", bytes{0x76}, false}); t.push_back({"ADD", bytes{0x93}, false});
+    // operands whose numeric decoding throws (too long / non-minimal): used only as first element of the triples <operand> <numeric op> <any token>
+    for (const char* h : {"0102030405", "ffffffff7f", "0000"}) { bytes d = ref::unhex(h); Tok k{h, ref::push_raw(d), false}; k.extra = true; t.push_back(k); }
     return t;
 }
 
@@ -241,8 +243,18 @@ static void check_c16(const Spec& sp, const std::vector<Tok>& toks, int maxlen, 
     }
     st.sessions++;
     std::vector<std::vector<int>> lists;
-    for (size_t i = 0; i < toks.size(); i++) lists.push_back({int(i)});
-    if (maxlen >= 2) for (size_t i = 0; i < toks.size(); i++) for (size_t j = 0; j < toks.size(); j++) lists.push_back({int(i), int(j)});
+    for (size_t i = 0; i < toks.size(); i++) if (!toks[i].extra) lists.push_back({int(i)});
+    if (maxlen >= 2) for (size_t i = 0; i < toks.size(); i++) for (size_t j = 0; j < toks.size(); j++) if (!toks[i].extra && !toks[j].extra) lists.push_back({int(i), int(j)});
+    // triples <operand> <numeric op> <token>: the middle operation fails by throwing (number too long / not minimal) or returns normally,
+    // depending on operand and flags; whatever follows a failing operation must not be applied
+    if (maxlen >= 2) {
+        std::vector<int> operands, numops;
+        for (size_t i = 0; i < toks.size(); i++) {
+            if (toks[i].extra || toks[i].text == "0100" || toks[i].text == "0080" || toks[i].text == "ffffff7f") operands.push_back(int(i));
+            for (const char* n : {"OP_1ADD", "OP_NOT", "OP_ADD", "OP_PICK", "OP_WITHIN", "OP_CHECKLOCKTIMEVERIFY", "OP_VERIFY", "OP_IF"}) if (toks[i].text == n) numops.push_back(int(i));
+        }
+        for (int a : operands) for (int b : numops) for (size_t c = 0; c < toks.size(); c++) if (!toks[c].extra && !toks[c].codesep) lists.push_back({a, b, int(c)});
+    }
     int nops = int(step_opcodes(sp).size());
     for (int k = 0; k <= std::min(K, nops); k++) {   // prefixes inside the (single) script; k == nops: all ops done, verdict pending
         // reference state at prefix k
@@ -277,6 +289,22 @@ static void check_c16(const Spec& sp, const std::vector<Tok>& toks, int maxlen, 
                 if (iok) { rep(std::string("exec-outcome:") + pk + ";ref=" + ref::err_name(re) + ";impl=OK", std::string("exec must fail with ") + ref::err_name(re) + " but succeeded"); continue; }
                 // no transaction in these sessions: the error of a Schnorr check is unspecified (BaseSignatureChecker sets none)
                 if (ierr != ref::err_name(re) && re != ref::Err::SCHNORR_SIG) { rep(std::string("exec-outcome:") + pk + ";ref=" + ref::err_name(re) + ";impl=" + ierr, std::string("exec must fail with ") + ref::err_name(re) + " but reports " + ierr); }
+                // the operations after the failing one must have no effect (the script would have stopped there): the state must be the
+                // one reached by exec of the list cut after the failing operation (differential oracle; independent of how much of the
+                // failing operation itself was applied before it failed)
+                if (which + 1 < l.size()) {
+                    Sess S3; if (!S3.open(sp)) continue;
+                    for (int i = 0; i < k; i++) S3.s.inst.step();
+                    std::vector<char*> argv3(argv.begin(), argv.begin() + which + 1);
+                    try { S3.s.inst.eval(argv3.size(), argv3.data()); } catch (const std::exception&) {}
+                    st.evals++;
+                    const char* kd = nullptr;
+                    if (S.s.stack() != S3.s.stack()) kd = "stack"; else if (S.s.alt() != S3.s.alt()) kd = "altstack";
+                    else if (S.s.cond_size() != S3.s.cond_size() || S.s.cond_first_false() != S3.s.cond_first_false()) kd = "cond";
+                    else if (S.s.env().nOpCount != S3.s.env().nOpCount) kd = "opcount";
+                    if (kd) rep(std::string("exec-continues-after-failure:") + impl::sv_name(sp.sv) + ";failed=" + texts[which] + ";" + kd,
+                                std::string("operations after the failing one (") + texts[which] + ") were still applied: " + kd + " differs from exec of the list cut after it: stack=" + impl::stack_str(S.s.stack()) + " vs " + impl::stack_str(S3.s.stack()));
+                }
                 continue;
             }
             if (!iok) { rep(std::string("exec-outcome:") + pk + ";ref=OK;impl=" + ierr, "exec must succeed but reports " + ierr); continue; }
@@ -298,7 +326,7 @@ static void check_c16(const Spec& sp, const std::vector<Tok>& toks, int maxlen, 
                 Sess S2; S2.open(sp); for (int i = 0; i < k; i++) S2.s.inst.step();
                 try { S2.s.inst.eval(argv.size(), argv.data()); } catch (const std::exception&) {}
                 if (S2.s.inst.step()) {
-                    if (S2.s.inst.rewind() && flat(dump(S2)) != d1) { rep(std::string("exec-then-step-rewind:") + pk, "after exec, step + rewind does not return to the post-exec state (" + first_diff(dump(S2), after) + " differs)"); continue; }
+                    if (S2.s.inst.rewind() && flat(dump(S2)) != d1) { rep(std::string("exec-then-step-rewind:") + impl::sv_name(sp.sv) + ";" + first_diff(dump(S2), after), "after exec, step + rewind does not return to the post-exec state (" + first_diff(dump(S2), after) + " differs)"); continue; }
                 }
             }
             // continuing the session equals continuing the spliced script
